@@ -171,6 +171,8 @@ fn analyzer_route(thorough: bool) -> (u64, Vec<(String, String, String)>) {
     use abasic_core::verif::{parse_line_number, tokenize_skipping};
     let set = [
         "10 PRINT 1", "", " ", "\r", "\t ", "20 X=\"\u{e9}\"", "30 REM x ", "PRINT", "10", "40 %", " 50 A$ = 1", "60 DATA a, b\r", "70 \"", "80 ?1;2", "\u{c}", "10 \u{a0}", "10 PRINT 12345", "10 PRINT B", "20 GOTO 99", "\u{a0}30 PRINT 1",
+        // the statement text of the first line under a line number of another width
+        "100 PRINT 1",
     ];
     let n = if thorough { 4 } else { 3 };
     let base = set.len() as u64;
@@ -185,13 +187,26 @@ fn analyzer_route(thorough: bool) -> (u64, Vec<(String, String, String)>) {
                 let lines: Vec<&str> = decode_seq(i, base, len).iter().map(|k| set[*k]).collect();
                 let text = lines.join("\n");
                 let t2 = text.clone();
-                let a = match guarded(move || {
+                let (a, own) = match guarded(move || {
                     let a = abasic_core::SourceFileAnalyzer::analyze(t2);
-                    a.token_types().iter().map(|l| l.iter().map(|(_, r)| r.clone()).collect::<Vec<_>>()).collect::<Vec<_>>()
+                    (a.token_types().iter().map(|l| l.iter().map(|(_, r)| r.clone()).collect::<Vec<_>>()).collect::<Vec<_>>(), a.source_file_lines().clone())
                 }) {
                     Ok(a) => a,
                     Err(p) => return Some((format!("analyzer panic {}", short_panic(&p)), p, text)),
                 };
+                // the ranges refer to the lines the analyzer itself hands out
+                for (k, rs) in a.iter().enumerate() {
+                    for r in rs {
+                        let ok = own.get(k).map(|l| r.end <= l.len() && l.is_char_boundary(r.start) && l.is_char_boundary(r.end)).unwrap_or(false);
+                        if !ok {
+                            return Some((
+                                "token range does not fit the line the analyzer hands out".into(),
+                                format!("file {:?}: line {} token range {:?}; the analyzer's own line is {:?}", text, k, r, own.get(k)),
+                                text,
+                            ));
+                        }
+                    }
+                }
                 // located diagnostics: the range is a token of the line it names (or the line number)
                 {
                     let t3 = text.clone();
